@@ -84,7 +84,8 @@ def pty_sessions(ctx):
         # same for the queue histories: drops that find the front chunk partly consumed, big chunks drained in pieces
         try:
             dist = json.load(open(os.path.join(ctx.get("case_dir") or os.path.join(ctx["build"], "cases", "C16"), "meta.json"))).get("distribution", {})
-            for tag in ("drop_with_front_partly_consumed=true", "big.partial_takes_in_chunk_over_64K=>=10", "max_chunks=>32"):
+            for tag in ("drop_with_front_partly_consumed=true", "big.partial_takes_in_chunk_over_64K=>=10", "max_chunks=>32",
+                        "seg.source_boundary", "via_std_traits"):
                 cov["queue_" + tag] = dist.get(tag, 0)
                 if not dist.get(tag, 0):
                     missing.append("queue histories with " + tag)
@@ -95,6 +96,34 @@ def pty_sessions(ctx):
                                "what": "the pty sessions did not reach: %s (fault script hook of Tty::write not effective, or generator changed)" % ", ".join(missing),
                                "case": {"pty_counters": {k: meta.get(k, 0) for k in required}}})
     return {"violations": violations, "coverage": cov, "notes": notes}
+
+
+# the API surface of IOQueue the model and the histories cover: inherent methods and the std traits it implements
+IOQUEUE_API = {"IOQueue": {"new", "is_empty", "len", "clear_but_last", "chunks_count", "as_slice", "consume", "consume_with"},
+               "Write": {"write", "flush"}, "Read": {"read"}, "BufRead": {"fill_buf", "consume"}, "Default": {"default"}}
+
+
+def api_surface(ctx):
+    """extra hook: every method in the impl blocks of IOQueue (src/common.rs) must be one the model covers; a new
+    inherent method or an overridden std trait method (read_to_end, write_all, write_vectored ...) breaks the tie
+    between model and code until it is modelled and called in histories"""
+    try:
+        text = open(os.path.join(ctx["repo"], "src", "common.rs")).read()
+    except OSError as e:
+        return {"violations": [{"kind": "broken-correspondence", "what": "src/common.rs unreadable: %s" % e, "case": {}}], "coverage": {}, "notes": []}
+    found = {}
+    for m in re.finditer(r"^impl(?:<[^>]*>)?\s+(?:([\w:]+)\s+for\s+)?IOQueue\s*\{(.*?)^\}", text, re.S | re.M):
+        key = (m.group(1) or "IOQueue").split("::")[-1]
+        found.setdefault(key, set()).update(re.findall(r"\bfn\s+(\w+)", m.group(2)))
+    unknown = sorted("%s::%s" % (k, f) for k, fs in found.items() for f in fs if f not in IOQUEUE_API.get(k, set()))
+    gone = sorted("%s::%s" % (k, f) for k, fs in IOQUEUE_API.items() for f in fs if f not in found.get(k, set()))
+    violations = []
+    if unknown or gone:
+        violations.append({"kind": "broken-correspondence",
+                           "what": "the API surface of IOQueue changed: not covered by the model / the histories: %s; no longer there: %s"
+                                   % (", ".join(unknown) or "-", ", ".join(gone) or "-"),
+                           "case": {"impl_blocks": {k: sorted(v) for k, v in found.items()}}})
+    return {"violations": violations, "coverage": {"ioqueue_methods": sum(len(v) for v in found.values())}, "notes": []}
 
 
 def strip_impl(s):
@@ -133,13 +162,16 @@ PROP = {'gen': [],
  'n_thorough': 30000,
  'shard': 125,
  'level': 'proof',
- 'extra': [pty_sessions],
+ 'extra': [pty_sessions, api_surface],
  'trusted_base': [KERNEL,
                   'hand-written models IO/IOQueue.v (IOQueue) and IO/TermIO.v (UnixTerminal write/execute/flush/poll write step/frames_drop), '
                   'tied to the code by the correspondence runs',
                   'specifications IO/FifoSpec.v (byte FIFO with flush marks) and IO/FrameSpec.v (match_frames), written from the property text',
                   'primitive 63-bit integers of Coq in the correspondence checks only (big histories, pty sessions)',
-                  HARNESS + '; pty peer thread (harness/src/ptyutil.rs)'],
+                  HARNESS + '; pty peer thread (harness/src/ptyutil.rs)',
+                  'segment histories (IO/SegQueue.v, harness run_seg): the harness compares every byte it got with the position pattern before it '
+                  'reports a run (start, length) - that comparison and its flat list of owed runs are trusted; the abstraction from the byte-level model '
+                  'to the segment model is stated (abstraction_ok) and evaluated on every segment history of at most 4096 bytes in every run, not proved'],
  'assumptions': ['fewer than 2^64 bytes are written in one history (so `length += n` cannot overflow and chunk lengths fit usize)',
                  'consume amounts passed by callers fit usize when added to the queue size (BufRead contract: amt <= bytes shown); otherwise the '
                  'only possible panic is the overflow of `offset + amt` (debug build; a release build wraps instead and corrupts length/offset: '
